@@ -40,6 +40,19 @@ type Solver struct {
 	timeoutMs int
 	log     io.Writer
 	nvars   int
+	ndefs   int
+}
+
+// MaybeRestart starts a fresh solver process when too many definitions
+// have accumulated (called between paths).
+func (s *Solver) MaybeRestart() {
+	if s.ndefs > 20000 {
+		st := s.stats
+		s.Close()
+		s.start()
+		s.stats = st
+		s.ndefs = 0
+	}
 }
 
 func newSolver(ts *TermStore, timeoutMs int, cmdline ...string) *Solver {
@@ -131,7 +144,14 @@ func (s *Solver) define(t *Term) {
 		if tt.op == "var" {
 			s.send(fmt.Sprintf("(declare-const %s %s)", tt.text, tt.sort.smt()))
 		} else {
-			s.send(fmt.Sprintf("(define-fun %s () %s %s)", tt.name(), tt.sort.smt(), tt.smtBody()))
+			s.send(fmt.Sprintf("(declare-const %s %s)", tt.name(), tt.sort.smt()))
+			if tt.sort.k == sFP64 || tt.sort.k == sFP32 {
+				// structural equality (NaN = NaN) for definitions
+				s.send(fmt.Sprintf("(assert (= %s %s))", tt.name(), tt.smtBody()))
+			} else {
+				s.send(fmt.Sprintf("(assert (= %s %s))", tt.name(), tt.smtBody()))
+			}
+			s.ndefs++
 		}
 		tt.sent = true
 		stack = stack[:len(stack)-1]
